@@ -104,69 +104,100 @@ Qed.
 End P.
 
 (* ---------- bspline_scaled, periodic ---------- *)
+(* the wrapped and clipped position: min(x mod (1+1e-9), 1) *)
+Definition wrapR (xs0 : R) : R := Rmin (fmod Rfops xs0 pR) 1.
+Lemma wrap_range xs0 : 0 <= wrapR xs0 <= 1.
+Proof. unfold wrapR. pose proof (fmod_range xs0 pR pR_pos) as [X0 X1]. unfold Rmin. destruct (Rle_dec (fmod Rfops xs0 pR) 1); lra. Qed.
+Lemma wrap_model xs0 : tmin Rfops (fmod Rfops xs0 (radd (fr Rfops) (r1 (fr Rfops)) (eps9 Rfops))) (r1 (fr Rfops)) = wrapR xs0.
+Proof. rewrite p_model, tmin_R. reflexivity. Qed.
+
 Lemma periodic_order0 n xs0 : (0 < n)%nat ->
-  bspline_scaled Rfops n 0 true xs0 = Some (irow (n + 0) 0 (fmod Rfops xs0 pR)).
+  bspline_scaled Rfops n 0 true xs0 = Some (irow (n + 0) 0 (wrapR xs0)).
 Proof.
   intros Hn. unfold bspline_scaled. destruct (Nat.ltb_spec n 1); [lia|].
-  cbn [Nat.eqb negb andb]. rewrite !andb_false_r. rewrite p_model. reflexivity.
+  cbn [Nat.eqb negb andb]. rewrite !andb_false_r. rewrite wrap_model. reflexivity.
 Qed.
 Lemma periodic_high n k xs0 : (1 <= k < n)%nat ->
-  bspline_scaled Rfops n k true xs0 =
-  if Rlt_dec 1 (fmod Rfops xs0 pR) then None else Some (pfold Rfops k (irow (n + k) k (fmod Rfops xs0 pR))).
+  bspline_scaled Rfops n k true xs0 = Some (pfold Rfops k (irow (n + k) k (wrapR xs0))).
 Proof.
-  intros Hkn. unfold bspline_scaled. destruct (Nat.ltb_spec n (S k)); [lia|]. rewrite p_model.
-  set (xs := fmod Rfops xs0 pR). pose proof (fmod_range xs0 pR pR_pos) as [X0 X1]. fold xs in X0, X1.
+  intros Hkn. unfold bspline_scaled. destruct (Nat.ltb_spec n (S k)); [lia|]. rewrite wrap_model.
+  pose proof (wrap_range xs0) as [X0 X1]. set (xs := wrapR xs0) in *.
   cbn [Rfops fr Rrops rltb rsub r0 r1 andb orb].
   assert (E1 : Rltb xs 0 = false) by (apply Rltb_false; lra). rewrite E1.
-  destruct (Nat.eqb_spec k 0); [lia|]. cbn [orb negb andb]. rewrite andb_true_r.
-  unfold Rltb. destruct (Rlt_dec 1 xs) as [G|G]; [|reflexivity].
-  change (fr Rfops) with Rrops.
-  rewrite (b1_model (n + k) k) by lia.
-  fold (g1row (n + k) k). destruct (g1_facts (n + k) k) as [L _]; [lia|lia|]. rewrite L.
-  assert (LP : length (pfold Rfops k (b1row (n + k) k)) = n).
-  { unfold b1row. apply folded_length; lia. }
-  rewrite LP. destruct (Nat.eqb_spec (n + k) n); [lia|reflexivity].
+  assert (E2 : Rltb 1 xs = false) by (apply Rltb_false; lra). rewrite E2.
+  destruct (Nat.eqb_spec k 0); [lia|]. cbn [orb negb andb]. reflexivity.
+Qed.
+
+(* the periodic basis is defined for EVERY x (only n_splines < spline_order + 1 raises) *)
+Theorem periodic_total n k xs0 : (k < n)%nat -> exists row, bspline_scaled Rfops n k true xs0 = Some row.
+Proof.
+  intros Hkn. destruct (Nat.eq_dec k 0) as [->|K0].
+  - rewrite periodic_order0 by lia. eexists; reflexivity.
+  - rewrite periodic_high by lia. eexists; reflexivity.
 Qed.
 
 Theorem periodic_row n k xs0 row : bspline_scaled Rfops n k true xs0 = Some row ->
   length row = n /\ Forall (fun v => 0 <= v) row /\ vsumR row = 1.
 Proof.
   intros E. pose proof (scaled_Some_lt _ _ _ _ _ E) as Hkn.
-  pose proof (fmod_range xs0 pR pR_pos) as [X0 X1]. set (xs := fmod Rfops xs0 pR) in *.
+  pose proof (wrap_range xs0) as [X0 X1]. set (xs := wrapR xs0) in *.
   destruct (Nat.eq_dec k 0) as [K0|K0].
   - subst k. rewrite periodic_order0 in E by lia. inversion E; subst row; clear E. fold xs.
     assert (Hn : (0 < n + 0)%nat) by lia.
     pose proof (knot_k (n + 0) 0 Hn) as Tk. pose proof (knot_n (n + 0) 0 Hn) as Tn. cbn [Nat.eqb] in Tn.
-    destruct (locate (n + 0) 0 Hn xs (n + 0) 0) as [j0 [Hj Hx]]; [cbn [Nat.add]; unfold pR in X1; lra|].
+    pose proof e9_pos.
+    destruct (locate (n + 0) 0 Hn xs (n + 0) 0) as [j0 [Hj Hx]]; [cbn [Nat.add]; lra|].
     unfold irow. rewrite (deboor_haar (n + 0) 0 Hn xs j0 0 (n + 0) Hx). fold (crow (n + 0) 0 j0 xs).
     split; [rewrite crow_length; lia|]. split; [apply crow_nonneg; [assumption|lra]|]. apply crow_sum; [assumption|lia].
-  - rewrite periodic_high in E by lia. fold xs in E. destruct (Rlt_dec 1 xs) as [G|G]; [discriminate|].
+  - rewrite periodic_high in E by lia. fold xs in E.
     inversion E; subst row; clear E.
     destruct (irow_spec (n + k) k ltac:(lia) xs ltac:(lra)) as [j0 [Hj [Hin ->]]].
     split; [apply folded_length; (lia || assumption)|]. split; [apply folded_nonneg; (lia || assumption)|].
     apply folded_sum; (lia || assumption).
 Qed.
+(* ... so for every order, size and x there is a row, and it is non-negative and sums to one *)
+Theorem periodic_everywhere n k xs0 : (k < n)%nat ->
+  exists row, bspline_scaled Rfops n k true xs0 = Some row /\
+              length row = n /\ Forall (fun v => 0 <= v) row /\ vsumR row = 1.
+Proof. intros Hkn. destruct (periodic_total n k xs0 Hkn) as [row E]. exists row. split; [exact E|]. apply (periodic_row n k xs0 row E). Qed.
 
-(* where the periodic basis is defined: exactly off the gap (1, 1+1e-9) of the wrapped axis (order >= 1) *)
-Theorem periodic_defined_iff n k xs0 : (1 <= k < n)%nat ->
-  (bspline_scaled Rfops n k true xs0 = None <-> 1 < fmod Rfops xs0 pR).
-Proof.
-  intros Hkn. rewrite periodic_high by assumption. destruct (Rlt_dec 1 (fmod Rfops xs0 pR)); split; intros; try reflexivity; try assumption; try discriminate; contradiction.
-Qed.
-Theorem periodic_gap_refuted : exists n k xs0, (1 <= k < n)%nat /\ bspline_scaled Rfops n k true xs0 = None.
-Proof.
-  exists 2%nat, 1%nat, (1 + e9 / 2). split; [lia|]. apply periodic_defined_iff; [lia|].
-  pose proof e9_pos. rewrite fmod_small; unfold pR; lra.
-Qed.
+(* the row depends on x only through the wrapped, clipped position *)
+Lemma periodic_via_wrap n k xs0 xs1 : wrapR xs0 = wrapR xs1 ->
+  bspline_scaled Rfops n k true xs0 = bspline_scaled Rfops n k true xs1.
+Proof. intros E. unfold bspline_scaled. rewrite !wrap_model, E. reflexivity. Qed.
 
 (* exact period of the wrapped axis *)
 Theorem periodic_period n k xs0 (m : Z) :
   bspline_scaled Rfops n k true (xs0 + IZR m * pR) = bspline_scaled Rfops n k true xs0.
-Proof.
-  unfold bspline_scaled. rewrite p_model. rewrite (fmod_period xs0 pR m pR_pos). reflexivity.
-Qed.
+Proof. apply periodic_via_wrap. unfold wrapR. rewrite (fmod_period xs0 pR m pR_pos). reflexivity. Qed.
 Theorem bspline_row_period ek0 ek1 n k x (m : Z) : ek0 <> ek1 ->
   bspline_row Rfops ek0 ek1 n k true (x + IZR m * pR * (Rmax ek0 ek1 - Rmin ek0 ek1)) = bspline_row Rfops ek0 ek1 n k true x.
 Proof.
   intros Hne. unfold bspline_row. rewrite scaled_x_shift by assumption. apply periodic_period.
+Qed.
+(* on the clipped sliver [1, 1+1e-9) of the wrapped axis (the former S10 gap) the row is the row of the right edge *)
+Theorem periodic_sliver n k xs0 : 1 <= fmod Rfops xs0 pR ->
+  bspline_scaled Rfops n k true xs0 = bspline_scaled Rfops n k true 1.
+Proof.
+  intros H. apply periodic_via_wrap. unfold wrapR. pose proof e9_pos.
+  rewrite (fmod_small 1 pR) by (unfold pR; lra). unfold Rmin.
+  destruct (Rle_dec (fmod Rfops xs0 pR) 1), (Rle_dec 1 1); lra.
+Qed.
+Theorem bspline_row_sliver ek0 ek1 n k x : ek0 <> ek1 ->
+  Rmax ek0 ek1 <= x < Rmin ek0 ek1 + pR * (Rmax ek0 ek1 - Rmin ek0 ek1) ->
+  bspline_row Rfops ek0 ek1 n k true x = bspline_row Rfops ek0 ek1 n k true (Rmax ek0 ek1).
+Proof.
+  intros Hne [H1 H2]. unfold bspline_row.
+  assert (Hs : 0 < Rmax ek0 ek1 - Rmin ek0 ek1).
+  { unfold Rmax, Rmin. destruct (Rle_dec ek0 ek1); lra. }
+  assert (E1 : scaled_x Rfops ek0 ek1 (Rmax ek0 ek1) = 1).
+  { rewrite scaled_x_R. destruct (Req_EM_T (Rmax ek0 ek1 - Rmin ek0 ek1) 0); [lra|]. field. lra. }
+  rewrite E1. apply periodic_sliver.
+  rewrite scaled_x_R. destruct (Req_EM_T (Rmax ek0 ek1 - Rmin ek0 ek1) 0); [lra|].
+  set (s := Rmax ek0 ek1 - Rmin ek0 ek1) in *. set (xs := (x - Rmin ek0 ek1) / s).
+  assert (X1 : 1 <= xs).
+  { unfold xs. apply Rmult_le_reg_r with s; [assumption|]. unfold Rdiv. rewrite Rmult_assoc, Rinv_l by lra. unfold s in *. lra. }
+  assert (X2 : xs < pR).
+  { unfold xs. apply Rmult_lt_reg_r with s; [assumption|]. unfold Rdiv. rewrite Rmult_assoc, Rinv_l by lra. unfold s in *. lra. }
+  pose proof pR_pos. rewrite fmod_small by lra. exact X1.
 Qed.
